@@ -1,8 +1,258 @@
 (* C11 - CBOR encoder emits canonical CBOR that decodes to the same values.
-   Statements only; proofs live in Proofs/. *)
-From WP Require Import Base.Prelude Model.Cbor.
+
+   "Any sequence of encoder calls yields well-formed CBOR which an independent
+   decoder maps back to exactly the encoded values, with every integer, length
+   and count in shortest form and text strings valid UTF-8 (invalid ones
+   refused); every map is emitted with its entries sorted by the bytewise order
+   of their encoded keys regardless of the order the caller supplied them, and
+   a map with two equal keys is refused with an error."
+
+   Statements only; proofs live in Proofs/Cbor*.v.  The independent decoder is
+   Spec.Cbor.{shead, stokens}; UTF-8 validity is Spec.Cbor.Utf8Valid
+   (declarative); the order is Spec.Cbor.blt.  Model = Model/Cbor.v.
+   Name clash: Model.Cbor.TText etc. are the Go type constants (0x60 ...),
+   Spec.Cbor.TText etc. are token constructors; MText/MBytes/MMap below are
+   the model constants. *)
+From Coq Require Import Lia Permutation Sorted.
+From WP Require Import Base.Prelude Model.Cbor Spec.Cbor Spec.CborProgram.
+From WP Require Import Proofs.BaseLemmas Proofs.CborHead Proofs.CborUtf8
+  Proofs.CborTokens Proofs.CborMap Proofs.CborProgram.
 Open Scope N_scope.
 
-Theorem c11_smoke : typed_uint TPos 500 = [25; 1; 244].
-Proof. reflexivity. Qed.
-Print Assumptions c11_smoke.
+(* ---- the order used for map keys is a strict total order ---------------- *)
+Theorem blt_strict_total_order :
+  (forall a, ~ blt a a) /\
+  (forall a b c, blt a b -> blt b c -> blt a c) /\
+  (forall a b, blt a b \/ a = b \/ blt b a) /\
+  (forall a b, bytes_cmp a b = Eq <-> a = b) /\
+  (forall a b, blt a b <-> bytes_cmp a b = Lt).
+Proof.
+  exact (conj blt_irrefl (conj blt_trans (conj blt_trichotomy
+          (conj bytes_cmp_eq_iff blt_cmp)))).
+Qed.
+Print Assumptions blt_strict_total_order.
+
+(* ---- heads: every uint64, every major type, all boundaries at once ------ *)
+Theorem head_roundtrip : forall t n r,
+  major_const t -> n < two64 ->
+  shead (typed_uint t n ++ r) = Some (t / 32, n, min_width n, r)
+  /\ Forall (fun b => b < 256) (typed_uint t n).
+Proof. exact CborHead.head_roundtrip. Qed.
+Print Assumptions head_roundtrip.
+
+(* major_const is exactly "one of the eight Go Type constants" *)
+Theorem major_const_cases : forall t,
+  major_const t <-> In t [TPos; TNeg; MBytes; MText; TArray; MMap; TTag; TOther].
+Proof. exact CborHead.major_const_cases. Qed.
+Print Assumptions major_const_cases.
+
+(* encodeTypedUint IS the spec's shortest-form head encoder *)
+Theorem typed_uint_is_shortest_head : forall t n,
+  major_const t -> typed_uint t n = senc_head (t / 32) n.
+Proof. exact typed_uint_senc_head. Qed.
+Print Assumptions typed_uint_is_shortest_head.
+
+(* ---- EncodeInt over the whole int64 range --------------------------------- *)
+Theorem enc_int_correct : forall z,
+  (- Z.of_N two63 <= z < Z.of_N two63)%Z ->
+  exists t w,
+    stokens (enc_int z) = Some [(t, w)] /\ tok_int t = Some z /\ shortest (tok_arg t) w /\
+    ((0 <= z)%Z -> t = TUint (Z.to_N z)) /\ ((z < 0)%Z -> t = TNint (Z.to_N (-1 - z))).
+Proof. exact CborTokens.enc_int_correct. Qed.
+Print Assumptions enc_int_correct.
+
+(* ---- UTF-8 -------------------------------------------------------------------- *)
+(* Full strength, both directions, and without even assuming the elements
+   are < 256 (the automaton range-checks every byte it accepts). *)
+Theorem utf8_dfa_correct : forall bs, utf8_valid bs = true <-> Utf8Valid bs.
+Proof. exact CborUtf8.utf8_dfa_correct. Qed.
+Print Assumptions utf8_dfa_correct.
+
+(* the spec's own executable checker (used by stokens) meets the same spec *)
+Theorem sutf8_valid_correct : forall bs, sutf8_valid bs = true <-> Utf8Valid bs.
+Proof. exact CborUtf8.sutf8_valid_correct. Qed.
+Print Assumptions sutf8_valid_correct.
+
+Theorem enc_text_iff_utf8 : forall bs,
+  (Utf8Valid bs -> enc_text bs = Ok (enc_bytes_of MText bs)) /\
+  (~ Utf8Valid bs -> enc_text bs = Err).
+Proof. exact CborTokens.enc_text_iff_utf8. Qed.
+Print Assumptions enc_text_iff_utf8.
+
+Theorem enc_text_token : forall bs out,
+  lenN bs < two64 -> enc_text bs = Ok out ->
+  stokens out = Some [(TText bs, min_width (lenN bs))].
+Proof. exact CborTokens.enc_text_token. Qed.
+Print Assumptions enc_text_token.
+
+Theorem enc_bytes_token : forall bs,
+  lenN bs < two64 -> stokens (enc_bytes bs) = Some [(TBytes bs, min_width (lenN bs))].
+Proof. exact CborTokens.enc_bytes_token. Qed.
+Print Assumptions enc_bytes_token.
+
+(* ---- EncodeMap ------------------------------------------------------------------ *)
+Theorem enc_map_sorted : forall es out,
+  enc_map es = Ok out ->
+  exists s, Permutation s es /\
+            StronglySorted (fun a b => blt (fst a) (fst b)) s /\
+            out = enc_map_header (lenN es) ++ flat_map (fun e => fst e ++ snd e) s.
+Proof. exact CborMap.enc_map_sorted. Qed.
+Print Assumptions enc_map_sorted.
+
+Theorem enc_map_perm : forall es es', Permutation es es' -> enc_map es = enc_map es'.
+Proof. exact CborMap.enc_map_perm. Qed.
+Print Assumptions enc_map_perm.
+
+Theorem enc_map_dup : forall es, enc_map es = Err <-> ~ NoDup (map fst es).
+Proof. exact CborMap.enc_map_dup. Qed.
+Print Assumptions enc_map_dup.
+
+Theorem strict_sorted_unique : forall s s' : list (bytes * bytes),
+  StronglySorted (fun a b => blt (fst a) (fst b)) s ->
+  StronglySorted (fun a b => blt (fst a) (fst b)) s' ->
+  Permutation s s' -> s = s'.
+Proof. exact CborMap.strict_sorted_unique. Qed.
+Print Assumptions strict_sorted_unique.
+
+(* ---- whole programs, maps nested to any depth ------------------------------ *)
+(* General case (no restriction to map-free keys/values). *)
+Theorem program_tokens : forall p out,
+  wf_program p -> run_items p = Ok out ->
+  exists toks, stokens out = Some toks /\ Forall tok_shortest toks /\
+               map fst toks = tokens_of p.
+Proof. exact CborProgram.program_tokens. Qed.
+Print Assumptions program_tokens.
+
+(* stronger: the output is byte-for-byte the deterministic encoding of the
+   expected tokens, and consists of bytes *)
+Theorem program_canonical : forall p out,
+  wf_program p -> run_items p = Ok out ->
+  out = senc_tokens (tokens_of p) /\ Forall tok_wf (tokens_of p).
+Proof. exact CborProgram.program_canonical. Qed.
+Print Assumptions program_canonical.
+
+Theorem program_wfb : forall p out, wf_program p -> run_items p = Ok out -> wfb out.
+Proof. exact CborProgram.program_wfb. Qed.
+Print Assumptions program_wfb.
+
+(* the entry order tokens_of uses for an accepted map is THE strictly
+   ascending arrangement (by encoded key) of the supplied entries *)
+Theorem tokens_of_map_sorted : forall es out,
+  wf_item (IMap es) -> run_item (IMap es) = Ok out ->
+  exists s, Permutation s (map tok_entry es) /\ StronglySorted tok_key_lt s /\
+            tokens_of_item (IMap es) = TMap (lenN es) :: flat_map (fun e => fst e ++ snd e) s.
+Proof. exact CborProgram.tokens_of_map_sorted. Qed.
+Print Assumptions tokens_of_map_sorted.
+
+(* the tokeniser inverts the deterministic token encoder (spec-internal) *)
+Theorem stokens_senc_tokens : forall toks,
+  Forall tok_wf toks -> stokens (senc_tokens toks) = Some (map with_width toks).
+Proof. exact CborTokens.stokens_senc_tokens. Qed.
+Print Assumptions stokens_senc_tokens.
+
+(* ==== non-vacuity: the hypotheses are satisfiable, on boundary values ==== *)
+Definition max64 : N := 18446744073709551615.
+
+Example ex_major_const : major_const MMap /\ ~ major_const 5.
+Proof. split; [split; reflexivity|]. intros [H _]. discriminate. Qed.
+
+Example ex_head_boundaries :
+  map (fun n => shead (typed_uint TPos n ++ [7]))
+      [23; 24; 255; 256; 65535; 65536; 4294967295; 4294967296; two63; max64]
+  = [Some (0, 23, 0, [7]); Some (0, 24, 1, [7]); Some (0, 255, 1, [7]);
+     Some (0, 256, 2, [7]); Some (0, 65535, 2, [7]); Some (0, 65536, 4, [7]);
+     Some (0, 4294967295, 4, [7]); Some (0, 4294967296, 8, [7]);
+     Some (0, two63, 8, [7]); Some (0, max64, 8, [7])].
+Proof. vm_compute. reflexivity. Qed.
+
+Example ex_head_bytes :
+  typed_uint MMap 24 = [184; 24] /\ typed_uint TArray 65536 = [154; 0; 1; 0; 0] /\
+  typed_uint TPos max64 = [27; 255; 255; 255; 255; 255; 255; 255; 255].
+Proof. vm_compute. repeat split. Qed.
+
+(* a non-shortest head is a different byte string that shead still reads *)
+Example ex_liberal_decoder : shead [25; 0; 23; 9] = Some (0, 23, 2, [9]) /\ ~ shortest 23 2.
+Proof. split; [vm_compute; reflexivity|discriminate]. Qed.
+
+Example ex_enc_int :
+  stokens (enc_int (- Z.of_N two63)) = Some [(TNint (two63 - 1), 8)] /\
+  stokens (enc_int (-1)) = Some [(TNint 0, 0)] /\
+  stokens (enc_int (-25)) = Some [(TNint 24, 1)] /\
+  stokens (enc_int (Z.of_N two63 - 1)) = Some [(TUint (two63 - 1), 8)] /\
+  tok_int (TNint (two63 - 1)) = Some (- Z.of_N two63)%Z.
+Proof. vm_compute. repeat split. Qed.
+
+(* U+00E9, U+20AC, U+1F600, then 'A' *)
+Example ex_utf8_valid : Utf8Valid [195; 169; 226; 130; 172; 240; 159; 152; 128; 65].
+Proof.
+  exists [233; 8364; 128512; 65]. split; [|vm_compute; reflexivity].
+  repeat constructor; unfold scalar; lia.
+Qed.
+
+(* surrogate D800, overlong C0 80, > 10FFFF, truncated, stray continuation *)
+Example ex_utf8_invalid :
+  ~ Utf8Valid [237; 160; 128] /\ ~ Utf8Valid [192; 128] /\
+  ~ Utf8Valid [244; 144; 128; 128] /\ ~ Utf8Valid [226; 130] /\ ~ Utf8Valid [128] /\
+  ~ Utf8Valid [300].
+Proof.
+  repeat split; intros H; apply utf8_dfa_correct in H; vm_compute in H; discriminate.
+Qed.
+
+Example ex_enc_text :
+  enc_text [195; 169] = Ok [98; 195; 169] /\ enc_text [195] = Err.
+Proof. vm_compute. split; reflexivity. Qed.
+
+(* keys of mixed lengths: "ab" (0x62 0x61 0x62), uint 100 (0x18 0x64), uint 10
+   (0x0a), "" (0x60): sorted bytewise 0a < 18 64 < 60 < 62 61 62 *)
+Definition ex_entries : list (bytes * bytes) :=
+  [([98; 97; 98], [1]); ([24; 100], [2]); ([10], [3]); ([96], [4])].
+
+Example ex_enc_map :
+  enc_map ex_entries = Ok [164; 10; 3; 24; 100; 2; 96; 4; 98; 97; 98; 1] /\
+  enc_map (rev ex_entries) = enc_map ex_entries /\
+  enc_map (ex_entries ++ [([10], [9])]) = Err.
+Proof. vm_compute. repeat split. Qed.
+
+Example ex_blt : blt [10] [24; 100] /\ blt [24; 100] [96] /\ blt [96] [98; 97; 98]
+                 /\ blt [98] [98; 0].
+Proof. repeat split; apply blt_cmp; reflexivity. Qed.
+
+(* a nested program: uint, array head, a map whose second key is itself a map
+   and whose values contain text and a nested map supplied out of order *)
+Definition ex_program : list item :=
+  [IUint 1000; IArr 2;
+   IMap [([IText [98]], [IInt (-1)]);
+         ([IMap [([IUint 2], [IBool true]); ([IUint 1], [IBool false])]], [IBytes [1; 2; 3]]);
+         ([IUint 24], [IArr 1; IText [195; 169]])];
+   IInt (-1000)].
+
+Example ex_program_wf : wf_program ex_program.
+Proof.
+  unfold wf_program, ex_program, wfb.
+  repeat first [constructor | (unfold two63, two64; cbn; lia)].
+Qed.
+
+Example ex_program_runs :
+  run_items ex_program =
+  Ok [25; 3; 232; 130; 163; 24; 24; 129; 98; 195; 169; 97; 98; 32;
+      162; 1; 244; 2; 245; 67; 1; 2; 3; 57; 3; 231].
+Proof. vm_compute. reflexivity. Qed.
+
+Example ex_program_tokens :
+  tokens_of ex_program =
+  [TUint 1000; TArr 2; TMap 3; TUint 24; TArr 1; TText [195; 169]; TText [98]; TNint 0;
+   TMap 2; TUint 1; TBool false; TUint 2; TBool true; TBytes [1; 2; 3]; TNint 999].
+Proof. vm_compute. reflexivity. Qed.
+
+Example ex_program_decodes :
+  option_map (map fst)
+    (stokens [25; 3; 232; 130; 163; 24; 24; 129; 98; 195; 169; 97; 98; 32;
+              162; 1; 244; 2; 245; 67; 1; 2; 3; 57; 3; 231])
+  = Some (tokens_of ex_program).
+Proof. vm_compute. reflexivity. Qed.
+
+(* failing programs exist: invalid text, duplicate keys *)
+Example ex_program_fails :
+  run_items [IText [255]] = Err /\
+  run_items [IMap [([IUint 1], [IUint 2]); ([IInt 1], [IUint 3])]] = Err.
+Proof. vm_compute. split; reflexivity. Qed.
